@@ -146,6 +146,11 @@ def run_ref_hold(run, P, only=None):
                     return True
                 if holder_rec(t['l']) and isinstance(strip(t['r']), dict) and strip(t['r']).get('k') == 'call':
                     return True
+            if t.get('k') == 'decl':
+                for d in t['d']:
+                    r = strip(d.get('init'))
+                    if d.get('prec') in H and isinstance(r, dict) and r.get('k') == 'call':
+                        return True
             return False
         if not any(is_rule_event(ev) and (ev['e'].get('k') != 'call' or ev['e'].get('fn') != REL) for b, ev in P.events(f)):
             return found
@@ -209,6 +214,15 @@ def run_ref_hold(run, P, only=None):
                 if a:
                     e = apply_generic(ev, env, R).copy()
                     e.ts['fresh:' + a] = 1
+                    return [e]
+            if t.get('k') == 'decl':
+                e = None
+                for d in t['d']:
+                    r = strip(d.get('init'))
+                    if d.get('prec') in H and isinstance(r, dict) and r.get('k') == 'call':
+                        e = e or apply_generic(ev, env, R).copy()
+                        e.ts['fresh:v%d' % d['id']] = 1
+                if e is not None:
                     return [e]
             if t.get('k') == 'asg' and t.get('op') == '=':
                 l = strip(t['l'])
